@@ -155,6 +155,25 @@ def c02(run, scratch):
     run.coverage['interleaved_history_rows'] = len(mrows)
     trows = enc.sweep_text(cm, run.seed, 'thorough')
     _judge_rows(run, trows, scratch, lambda c, row: 'DecodesToSource' in c, 'text')
+    # the immediate given by NAME (a constant), with the instruction at a non-zero address: the halfword must still decode to the value
+    rngk = random.Random(run.seed ^ 0xc02)
+    krows = []
+    for m in cm:
+        sig = enc.ALLSIG[m]
+        imm_slots = [k for k, s_ in enumerate(sig) if isinstance(s_, tuple)]
+        if len(imm_slots) != 1 or m in ('c.j', 'c.jal', 'c.beqz', 'c.bnez'):
+            continue
+        okt = [x[1] for x in drows if x[0] == m and x[3] == 'ok' and not any(x[2])]
+        for ops in rngk.sample(okt, min(len(okt), 40)):
+            parts = ['KQ' if isinstance(s_, tuple) else str(enc.spell_reg(v, rngk.choice([1, 2, 3]))) for s_, v in zip(sig, ops)]
+            src = 'KQ = %d\nc.nop\n%s %s\n' % (ops[imm_slots[0]], m, ', '.join(parts))
+            rec = impl.assemble_recorded(src, compress=False)
+            if rec['status'] == 'ok' and len(rec['out']) == 4:
+                krows.append(enc._row(m, ops, 'ok', int.from_bytes(rec['out'][2:4], 'little')))
+            else:
+                krows.append(enc._row(m, ops, 'err', 0))
+    _judge_rows(run, krows, scratch, lambda c, row: 'DecodesToSource' in c or c == 'AcceptedWhenLegal', 'text, operand named by a constant')
+    run.coverage['named_constant_operand_rows'] = len(krows)
     accepted = {(x[0], tuple(x[1])) for x in drows + trows + rows if x[3] == 'ok'}
     run.coverage['distinct_nontrivial'] = len(accepted)
     run.coverage['exhaustive'] = True
